@@ -126,8 +126,10 @@ func parseUDTTerm(l *lexer, t token) (idempotent bool, typ termType, err error) 
 		if err != nil {
 			return false, termSetMapUdtLiteral, err
 		}
-		t = skipToken(l, l.next(), tkColon)
-		if idempotent, typ, err = parseTerm(l, t); !idempotent {
+		if tkColon != t { // The field name's ':' has already been read by parsing the (qualified) identifier
+			return false, termSetMapUdtLiteral, errors.New("expected ':' after field name in UDT literal")
+		}
+		if idempotent, typ, err = parseTerm(l, l.next()); !idempotent {
 			return idempotent, termSetMapUdtLiteral, err
 		}
 		t = skipToken(l, l.next(), tkComma)
